@@ -306,7 +306,7 @@ async fn batch(rep: &mut Reporter, cfg: &Config, ip: IpAddr, reqs: Vec<(String, 
             rep.count("socket/responses");
         }
         for (clause, e, o) in v.fails {
-            rep.violation(clause, exp.branch, case_json(cfg, ip, s), json!({"clause": e, "branch": exp.branch, "error_rcodes": exp.err_rcodes, "ordinary": format!("{:?}", exp.normal)}), json!({"clause": o, "responses": s.responses.iter().map(|r| hex(r)).collect::<Vec<_>>()}));
+            rep.violation(clause, exp.branch, case_json(cfg, ip, s), json!({"clause": e, "branch": exp.branch, "error_rcodes": exp.err_rcodes, "ordinary": format!("{:?}", exp.normal), "pseudo_records": exp.tags}), json!({"clause": o, "responses": s.responses.iter().map(|r| hex(r)).collect::<Vec<_>>()}));
         }
     }
 }
